@@ -21,14 +21,15 @@ package server
 //   FetchEnd(c)       releases that goroutine and takes its result
 //   SetFail(k, v)     apiServer.SetCursor while the partition cannot commit (its
 //                     minISR raised above the ISR size for the call): the record
-//                     is appended, the call fails at its 100 ms deadline
+//                     is appended, then the call is given up (context cancelled)
 //   CleanBegin/End    log.Clean() in a goroutine parked at the commit-log gate
 //                     "clean.before_swap" (compaction done, segment list not yet
 //                     swapped), then released
 //   Clean             log.Clean() of the cursors partition
 //   Pause             partition.requestPause() - what the auto-pause timer of the
 //                     cursors partition does when it fires
-//   Restart           Server.Stop() + start over the same data directory
+//   Restart(parts)    Server.Stop() + start over the same data directory, with
+//                     cursors.stream.partitions = parts in the configuration
 // After every step the abstract state is projected from the real objects: the
 // cursors partition log (every entry read back and decoded), its segment
 // files, HW, next offset, paused flag, the LRU content in recency order.
@@ -113,6 +114,8 @@ type vC11Run struct {
 	cap      int
 	cacheOn  bool
 	failWait time.Duration
+	stalled  *partition // partition whose minISR is raised (commit stalled) since a SetFail
+	minISR   int
 	pend     map[string]*vC11Pending
 	clean    *vC11Pending
 	lastSet  *vC11Ent // key/value of the SetCursor of the current step
@@ -217,6 +220,16 @@ func (r *vC11Run) releaseAll() {
 	}
 }
 
+// let the cursors partition commit again
+func (r *vC11Run) unstall() {
+	if r.stalled != nil {
+		r.stalled.mu.Lock()
+		r.stalled.minISR = r.minISR
+		r.stalled.mu.Unlock()
+		r.stalled = nil
+	}
+}
+
 func (r *vC11Run) fail(msg string) {
 	r.releaseAll()
 	r.t.Fatalf("INCONCLUSIVE: behaviour %d: %s", r.id, msg)
@@ -279,6 +292,7 @@ func (r *vC11Run) step(step map[string]interface{}) vC11Event {
 		}()
 		switch a {
 		case "Set":
+			r.unstall()
 			ctx, cancel := context.WithTimeout(context.Background(), vC11Deadline)
 			_, err := r.srv.api.SetCursor(ctx, &client.SetCursorRequest{Stream: r.stream(), Partition: 0,
 				CursorId: vStr(step, "k"), Offset: vInt(step, "v")})
@@ -344,17 +358,46 @@ func (r *vC11Run) step(step map[string]interface{}) vC11Event {
 				obs.A, a = "Skip", "Skip"
 				return
 			}
-			p.mu.Lock()
-			old := p.minISR
-			p.minISR = len(p.isr) + 1
-			p.mu.Unlock()
-			ctx, cancel := context.WithTimeout(context.Background(), r.failWait)
-			_, err := r.srv.api.SetCursor(ctx, &client.SetCursorRequest{Stream: r.stream(), Partition: 0,
-				CursorId: vStr(step, "k"), Offset: vInt(step, "v")})
+			// (the commit stays stalled until the next SetCursor that is to succeed:
+			// un-stalling here would race with the commit loop's pending wake-up)
+			if r.stalled != p {
+				p.mu.Lock()
+				r.minISR = p.minISR
+				p.minISR = len(p.isr) + 1
+				p.mu.Unlock()
+				r.stalled = p
+			}
+			// the call is given up (its context cancelled) as soon as its record is in
+			// the log: it can never be committed, waiting longer changes nothing
+			before := p.log.NewestOffset()
+			ctx, cancel := context.WithCancel(context.Background())
+			errC := make(chan error, 1)
+			go func() {
+				_, err := r.srv.api.SetCursor(ctx, &client.SetCursorRequest{Stream: r.stream(), Partition: 0,
+					CursorId: vStr(step, "k"), Offset: vInt(step, "v")})
+				errC <- err
+			}()
+			var err error
+			deadline := time.Now().Add(vC11Deadline)
+			returned := false
+			for p.log.NewestOffset() == before && !returned {
+				select {
+				case err = <-errC:
+					returned = true
+				default:
+					if time.Now().After(deadline) {
+						cancel()
+						<-errC
+						r.unstall()
+						r.fail("SetCursor neither appended its record nor returned")
+					}
+					time.Sleep(200 * time.Microsecond)
+				}
+			}
 			cancel()
-			p.mu.Lock()
-			p.minISR = old
-			p.mu.Unlock()
+			if !returned {
+				err = <-errC
+			}
 			obs.Err = vC11Err(err)
 			obs.Ret = vInt(step, "v")
 		case "CleanBegin":
@@ -408,7 +451,7 @@ func (r *vC11Run) step(step map[string]interface{}) vC11Event {
 				obs.Err = err.Error()
 			}
 		case "Pause":
-			if r.clean != nil {
+			if r.clean != nil || r.part().IsPaused() {
 				obs.A, a = "Skip", "Skip"
 				return
 			}
@@ -429,6 +472,10 @@ func (r *vC11Run) step(step map[string]interface{}) vC11Event {
 				obs.A, a = "Skip", "Skip"
 				return
 			}
+			// the configured number of cursors partitions may differ after the restart
+			// (the existing __cursors stream keeps the partitions it was created with)
+			r.cfg.CursorsStream.Partitions = int32(vIntDef(step, "parts", 1))
+			args["v"] = vIntDef(step, "parts", 1)
 			r.srv.Stop()
 			r.srv = vOneNodeServer(r.t, r.cfg)
 			r.waitLeader()
@@ -503,7 +550,10 @@ func TestVerifCursors(t *testing.T) {
 		run.cap = int(vIntDef(b.Cfg, "cap", 2))
 		run.cacheOn = vBool(b.Cfg, "cacheOn")
 		run.pend = map[string]*vC11Pending{}
+		run.unstall()
 		// fresh cursors stream with segments of segCap entries
+		run.cfg.CursorsStream.Partitions = 1
+		run.srv.config.CursorsStream.Partitions = 1
 		run.srv.config.Streams.SegmentMaxBytes = vIntDef(b.Cfg, "segCap", 2) * entSize
 		ctx, cancel := context.WithTimeout(context.Background(), vC11Deadline)
 		st := run.srv.metadata.DeleteStream(ctx, &proto.DeleteStreamOp{Stream: cursorsStream})
